@@ -21,6 +21,9 @@ THEOREMS = [
     "BeyondVerif.C13.covRead_matches_writers",
     "BeyondVerif.C13.oemCovRows_match_writers",
     "BeyondVerif.C13.frames_roundtrip",
+    "BeyondVerif.C13.frameTable_facts",
+    "BeyondVerif.C13.frameOut_ok",
+    "BeyondVerif.C13.opmSsb_wf",
     "BeyondVerif.C13.cov_frame_alias_roundtrip",
     "BeyondVerif.C13.man_frame_alias_roundtrip",
     "BeyondVerif.C13.written_units_known",
@@ -69,8 +72,9 @@ THEOREMS = [
     "BeyondVerif.C13.stamp_instant_roundtrip",
     "BeyondVerif.C13.oem_dump_any_form",
     "BeyondVerif.C13.center_name_roundtrip",
-    "BeyondVerif.C13.center_name_roundtrip_xml_partial",
-    "BeyondVerif.C13.center_name_roundtrip_xml_of_same_pats",
+    "BeyondVerif.C13.center_name_roundtrip_xml",
+    "BeyondVerif.C13.center_pats_agree",
+    "BeyondVerif.C13.centre_names_have_no_blank",
     "BeyondVerif.C13.man_ignition_tables",
     "BeyondVerif.C13.thrust_window_roundtrip",
     "BeyondVerif.C13.date_attr_shifts_window",
@@ -80,7 +84,9 @@ THEOREMS = [
     "BeyondVerif.C13W.mixed_scale_moves_instant",
     "BeyondVerif.C13W.oem_xml_noncartesian_form_ok",
     "BeyondVerif.C13W.opm_keplerian_maneuver_lost",
+    "BeyondVerif.C13W.xml_lagrange_centre_ok",
     "BeyondVerif.C13W.xml_lagrange_centre_glued",
+    "BeyondVerif.C13W.lagrange_multiword_body_ok",
     "BeyondVerif.C13W.lagrange_multiword_body_name_lost",
     "BeyondVerif.C13W.solar_system_barycenter_ok",
     "BeyondVerif.C13W.man_stop_dated_ok",
@@ -101,7 +107,7 @@ THEOREMS = [
     "BeyondVerif.C13W.tdm_two_paths_reload_as_list",
 ]
 LEVEL_TEXT = ("Lean theorems over a structural model of beyond/io/ccsds (element trees, tokenised KVN lines, xml2dict / kvn2dict, the OEM / TDM line state "
-              "machines, the eight readers/writers). load_dump_id is proved for WHOLE messages of all four types in BOTH encodings, universally quantified, by "
+              "machines, the eight readers/writers; frames: the regenerated registry of the ten Earth-centred frames and of the frames centred on solar-system / JPL bodies and Lagrange points). load_dump_id is proved for WHOLE messages of all four types in BOTH encodings, universally quantified, by "
               "induction over the lists of segments / points / covariance blocks / maneuvers / observations / user-defined fields: opm_xml_load_dump_id, "
               "opm_kvn_load_dump_id (kvn2dict groups the MAN_ lines into one dict per maneuver, comment attached), omm_xml_load_dump_id, omm_kvn_load_dump_id, "
               "oem_xml_load_dump_id, oem_kvn_load_dump_id (each covariance block attached to the point of the same epoch, any number of segments), "
@@ -112,15 +118,15 @@ LEVEL_TEXT = ("Lean theorems over a structural model of beyond/io/ccsds (element
               "message comes back identical and a date labelled otherwise comes back as the same instant (stamp_roundtrip_same_scale, stamp_instant_roundtrip, "
               "stamp_instant_iff); both OEM writers accept points in any form (oem_dump_any_form); CENTER_NAME of every centre the library can create (analytical bodies, JPL bodies of one to three words, Lagrange points) "
               "comes back as the frame name through the KVN writers' CamelCase split and the readers' title().replace (center_name_roundtrip, by `decide` over the names regenerated from the live objects; "
-              "center_name_roundtrip_xml_partial without the Lagrange points); the thrust window [start, stop) of a continuous maneuver dated by start / median / stop comes back "
+              "center_name_roundtrip_xml: both writers test the same regenerated patterns; centre_names_have_no_blank); the thrust window [start, stop) of a continuous maneuver dated by start / median / stop comes back "
               "(thrust_window_roundtrip). Tables regenerated from the source on every run and checked by `decide`: covariance key matrix, OEM row keys, the ten "
               "frames, covariance and maneuver frame aliases, written units, which groups each reader wraps, the date attribute printed as MAN_EPOCH_IGNITION, the "
               "readers' date_pos, whether the writers convert time scales / forms / Keplerian maneuvers. Exact differential correspondence (message tokens at "
               "written precision, error kinds, clock readings) of the compiled model with the real dumps/loads for all four types x both encodings x re-dump.")
-LEVEL_NOTE = ("whole-message theorems hold for well-formed objects: non-empty texts, one of the ten Earth-centred frames, covariance / maneuver frames own, QSW or TNW, "
-              "distinct epochs inside an ephemeris, at most nine participants per path, one time scale per message in the structural model (other labels: Model/CcsdsExt.lean); four clauses are false of the current code and "
-              "kept as `_partial` theorems / kernel-checked counter-witnesses (open findings: multi-path TDM reloads as a list dumps refuses; "
-              "Keplerian maneuvers not written; XML writer prints the centre of a Lagrange-point frame glued; Lagrange point of a body with a two-word name); float formatting/parsing, Date arithmetic, lxml and the splitting of KVN text into tokens are parameters of the "
+LEVEL_NOTE = ("whole-message theorems hold for well-formed objects: non-empty texts, a registered frame (the ten Earth-centred ones and every frame centred on a solar-system body, a body of the JPL test kernels or a Lagrange point: regenerated table; an OMM: Earth-centred), covariance / maneuver frames own, QSW or TNW, "
+              "distinct epochs inside an ephemeris, at most nine participants per path, one time scale per message in the structural model (other labels: Model/CcsdsExt.lean); two clauses are false of the current code and "
+              "kept as a `_partial` theorem / kernel-checked counter-witness (open findings: multi-path TDM reloads as a list dumps refuses; "
+              "Keplerian maneuvers not written); float formatting/parsing, Date arithmetic, lxml and the splitting of KVN text into tokens are parameters of the "
               "model (exercised by the correspondence and the oracle); Lean kernel + propext/Classical.choice/Quot.sound")
 TECHNIQUE = ("Lean 4 proof by induction over line / sibling / segment lists + kernel `decide` on tables regenerated from the Python AST and on concrete messages; "
              "exact model/implementation correspondence through the line-protocol driver")
@@ -147,18 +153,18 @@ ASSUMPTIONS = [
 ]
 NOT_COVERED = [
     "covariance / maneuver frames given as the NAME of an inertial frame (the orbit's own or another one): generated, checked by the oracle and the exact correspondence, but outside the well-formedness predicates of the whole-message theorems (own, QSW, TNW)",
-    "the structural model is Earth-centred: frames centred elsewhere (solar-system bodies, JPL bodies, Lagrange points) are generated for OPM and OEM, checked by the oracle, "
-    "and their CENTER_NAME writer/reader pair is modelled as string functions (center_name_roundtrip over the regenerated list of centre names, ext center correspondence), "
-    "but the whole-message theorems quantify over the ten Earth-centred frames; the JPL frame named `Earth` (EME2000 under another name, read back as EME2000) is left out; "
+    "the frame registry is dynamic: the regenerated frame table holds the ten Earth-centred frames and the frames the harness creates around other centres (beyond.env.solarsystem, beyond.env.jpl on the library's test kernels, "
+    "beyond.frames.lagrange for seven body pairs); another kernel or another Lagrange pair gives other names (the string theorem center_name_roundtrip is checked on the regenerated list only); a frame whose name differs from its centre's "
+    "(the JPL frame `Earth` = EME2000 under another name; a Lagrange frame given a custom name) is read back as the frame named after the centre and is left out; where two sources create a frame of the same name (Moon, Sun) the table keeps one REF_FRAME text; "
     "Keplerian and other mu-dependent forms do not exist at a Lagrange point (no body); OMM ephemeris type / classification (XML writes constants 0 / U), continuous maneuvers shorter than 0.5 ms (reload as impulsive), measures without a path (PVT: X, Y, ... are silently not written)",
     "string-level corner cases: texts containing '=', '[', 'COMMENT', leading/trailing blanks or that are empty/whitespace-only",
     "reader-only notations (default units, RTN, day-of-year dates, dates without fraction, comment lines, acceleration columns, theory SGP4, missing EPHEMERIS_TYPE / CLASSIFICATION_TYPE, centre in lower case) are checked by the oracle "
     "(`variants`: same object decoded, re-dump possible) but not modelled; what RANGE_UNITS = s means is outside the statement: the writers never produce it, so no round trip of an object beyond wrote is involved, and the Range read from such a foreign TDM "
     "does round-trip through dumps/loads as it was read (lead for the maintainers, not a C13 finding: tdm.py multiplies seconds by km * c with c in m/s, 1000 times too large)",
-    "clauses false of the current code (open findings, proposed fixes not applied): C13-tdm-multi-path-reloads-as-list; C13-opm-keplerian-maneuver; C13-xml-lagrange-centre-name-glued; C13-lagrange-centre-of-multiword-body",
+    "clauses false of the current code (open findings, proposed fixes not applied): C13-tdm-multi-path-reloads-as-list; C13-opm-keplerian-maneuver",
 ]
 OPEN = [
-    "generalise CovWf / OpmWf to frame tags that are names of other inertial frames (alias tables are the identity on them)",
+    "generalise CovWf / OpmWf to covariance / maneuver frame tags that are names of other inertial frames (alias tables are the identity on them)",
     "tdm_redump_total for several paths (false of the current code: open finding C13-tdm-multi-path-reloads-as-list)",
     "a string-level model of the KVN tokenisation (`key = value [unit]`, COMMENT lines) instead of tokenised lines (the USER_DEFINED_ prefix is modelled separately: ud_key_roundtrip)",
 ]
@@ -166,7 +172,7 @@ RULE = ("correspondence: objects generated from one PRNG (OPM: 10 frames x 6 sca
         "name/id as attributes, keyword arguments or absent, originator, kep on/off, covariance absent/own/own by name/QSW/TNW/other inertial frame, 0-3 maneuvers ImpulsiveMan / ContinuousMan (dv or accel; date_pos start/median/stop, any case) "
         "in None/QSW/TNW (any case)/own frame by name/other inertial frame with comment absent/empty/one word/several words, user-defined fields absent/empty/1/2-4 with underscores, digits, lower case, CCSDS keywords, one a prefix of another; "
         "OMM: via Tle or direct, classification / ephemeris type, covariance, user-defined; OEM: 1-3 segments of 1-12 points with 0..n covariances, linear/lagrange, orders, name absent; TDM: 1-2 paths of 2-4 hops with 2-3 participants, 1-10 epochs, "
-        "Range/Azimut/Elevation(/Doppler), built by append or from a list), restricted to one time scale / cartesian points / non-Keplerian maneuvers for the structural model, format by fmt= (4/5) or configuration (1/5); per object 2 round trips + 4 re-dumps; "
+        "Range/Azimut/Elevation(/Doppler), built by append or from a list), restricted to one time scale / cartesian points / non-Keplerian maneuvers for the structural model (frames centred elsewhere than on the Earth included), format by fmt= (4/5) or configuration (1/5); per object 2 round trips + 4 re-dumps; "
         "plus the ext operations: thrust window (date_pos x duration x date), stamp (site x TIME_SYSTEM x scale), form (fmt x form), kepl (kind), udkey (name), center (every centre x fmt); a case is one request line, distinct = distinct line. "
         "oracle: the same generators (plus Keplerian maneuvers, non-cartesian OEM points, dates labelled in another scale, and for OPM / OEM with probability 0.12 a frame centred on a solar-system body, "
         "a body of the JPL test kernels or a Lagrange point) and the fixed witness objects; loads(dumps(x)) compared with the ORIGINAL object field by field with the property's tolerances "
@@ -1173,7 +1179,7 @@ def witness_specs():
         opm(centre={"src": "solarsystem", "name": "Moon"}), opm(centre={"src": "jpl", "name": "Venus"}),
         {"type": "oem", "segs": [dict(seg([pt(0, cov), pt(1)]), centre={"src": "jpl", "name": "SolarSystemBarycenter"})], "as_list": False},
         {"type": "oem", "segs": [dict(seg([pt(0), pt(1)]), centre={"src": "solarsystem", "name": "Sun"}), seg([pt(0)])], "as_list": True},
-        # open finding: Lagrange-point centres (XML writer does not split the name); Lagrange point of a body whose own name has two words
+        # (fixed 1063a10, b15e5e0) Lagrange-point centres in XML; Lagrange point of a body whose own name has two words
         opm(centre={"src": "lagrange", "name": "Earth-Moon-L1", "a": "Earth", "b": "Moon", "k": 1}, kep=False),
         {"type": "oem", "segs": [dict(seg([pt(0), pt(1)]), centre={"src": "lagrange", "name": "Sun-Earth-L2", "a": "Sun", "b": "Earth", "k": 2})], "as_list": False},
         opm(centre={"src": "lagrange", "name": "Sun-EarthBarycenter-L2", "a": "Sun", "b": "EarthBarycenter", "k": 2}, kep=False),
@@ -1481,6 +1487,7 @@ def read_tables():
     t["centerNames"] = sorted({centre_frame(c).center.name for c in cs.values() if c["src"] != "lagrange"})
     lag = sorted({centre_frame(c).center.name for c in cs.values() if c["src"] == "lagrange"})
     t["lagrangeNames"] = [n for n in lag if " " not in n]
+    t["lagrangeBlankNames"] = [n for n in lag if " " in n]
     # the USER_DEFINED_ prefix of the KVN keys: writers `f"USER_DEFINED_{k} = {v}\\n"`, readers `k.startswith(P)` ... `k[N:]`
     wp, rp, rs = set(), set(), set()
     for mod, name in ((opm, "opm.py"), (omm, "omm.py")):
@@ -1496,12 +1503,24 @@ def read_tables():
     if len(wp) != 1 or len(rp) != 1 or len(rs) != 1:
         raise RuntimeError(f"cannot read how the KVN readers/writers spell user-defined keys: writers {sorted(wp)}, readers startswith {sorted(rp)}, slice {sorted(rs)}")
     t["udWritePrefix"], t["udReadPrefix"], t["udReadSkip"] = wp.pop(), rp.pop(), rs.pop()
-    # frames (live objects, through the writers' own expressions)
+    # frames (live objects): name, CENTER_NAME and REF_FRAME as the KVN writer prints them — the ten Earth-centred frames and every frame
+    # centred elsewhere that the library can create (solar-system bodies, bodies of the JPL test kernels, Lagrange points)
     from beyond.frames import get_frame
+    from beyond.io.ccsds import dumps as _dumps
+    from beyond.orbits import StateVector as _SV
     ft = []
-    for f in FRAMES:
-        fr = get_frame(f)
-        ft.append((fr.name, fr.center.name.upper(), fr.orientation.name.upper()))
+    frs = [get_frame(f) for f in FRAMES] + [centre_frame(c) for _, c in sorted(centres().items())]
+    seen = set()
+    for fr in frs:
+        if fr.name in seen:
+            continue
+        seen.add(fr.name)
+        txt = _dumps(_SV([7.0e6, 1.0e5, -3.0e5, 10.0, 7500.0, 300.0], _date(7367 * 86400 * 10**6, "UTC"), "cartesian", fr), fmt="kvn", kep=False)
+        cn = re.search(r"^CENTER_NAME\s*=\s*(.*?)\s*$", txt, re.M).group(1)
+        rf = re.search(r"^REF_FRAME\s*=\s*(.*?)\s*$", txt, re.M).group(1)
+        if fr.name != fr.center.name and cn != "EARTH":
+            raise RuntimeError(f"frame {fr.name} is centred on {fr.center.name}: the readers rebuild the frame from the centre name")
+        ft.append((fr.name, cn, rf))
     t["frameTable"] = ft
     return t
 
@@ -1552,6 +1571,7 @@ def extract(ctx):
          f"def xmlCenterPats : List String := {lstr(t['xmlCenterPats'])}",
          f"def centerNames : List String := {lstr(t['centerNames'])}",
          f"def lagrangeNames : List String := {lstr(t['lagrangeNames'])}",
+         f"def lagrangeBlankNames : List String := {lstr(t['lagrangeBlankNames'])}",
          "end BeyondVerif.Generated"]
     ch2 = core.write_if_changed(os.path.join(core.LEAN, "BeyondVerif", "Generated", "CcsdsExtTables.lean"), "\n".join(E) + "\n")
     return (["Generated/CcsdsTables.lean"] if ch else []) + (["Generated/CcsdsExtTables.lean"] if ch2 else [])
@@ -1646,7 +1666,7 @@ def corr_case(out, spec, via, kind):
     t = spec["type"]
     obj, kw = build(spec)
     c0 = canon(obj, spec, kw)
-    kep = t == "opm" and spec["kep"] and spec["frame"] in KEP_FRAMES
+    kep = t == "opm" and spec["kep"] and obj.frame.orientation.name in KEP_FRAMES
     has_tle = t == "omm" and "tle" in obj._data
     toks = tdm_tokens_in(c0) if t == "tdm" else tokens(c0, kep=kep, has_tle=has_tle)
     lines, reals = [], []
@@ -1679,15 +1699,13 @@ def corr_case(out, spec, via, kind):
 
 
 def _model_domain(spec):
-    """the structural model has no Keplerian maneuvers, no form of the points, one time scale per message and the Earth as centre:
-    those four options go through the `ext` operations (kepl, form, stamp, center)"""
+    """the structural model has no Keplerian maneuvers, no form of the points and one time scale per message (frames centred elsewhere than on the Earth are in: regenerated frame table):
+    those three options go through the `ext` operations (kepl, form, stamp)"""
     if spec["type"] == "opm":
         spec["mans"] = [dict(m, scale=None) for m in spec["mans"] if m["kind"] in ("I", "C")]
-        spec["centre"] = None
     if spec["type"] == "oem":
         for s in spec["segs"]:
             s["form"] = "cartesian"
-            s["centre"] = None
             for p in s["points"]:
                 p["scale"] = None
     if spec["type"] == "tdm":
